@@ -109,6 +109,14 @@ class CursorTranslator(Translator):
                     nm = "%s[%s].%s" % (a0["referencedDecl"]["name"], ix["value"], n["name"])
                     st["declared"].add(nm)
                     return ("local", nm)
+        # `rnode.data.t_expired`: a member (chain) of a LOCAL struct / union is a named object of its own
+        if k == "MemberExpr" and not n.get("isArrow"):
+            chain, b = [n["name"]], self.strip(n["inner"][0])
+            while b.get("kind") == "MemberExpr" and not b.get("isArrow"):
+                chain.append(b["name"]); b = self.strip(b["inner"][0])
+            if b.get("kind") == "DeclRefExpr" and b["referencedDecl"]["kind"] == "VarDecl" and b["referencedDecl"]["name"] in st["declared"] \
+                    and b["referencedDecl"]["name"] not in st["locals"]:
+                return ("path", ".".join([b["referencedDecl"]["name"]] + chain[::-1]))
         # `pmeta->magic` where pmeta is a cursor onto a packed header: a 32-bit field at a probed offset (spec `struct_fields`)
         if k == "MemberExpr" and n.get("isArrow") and n.get("name") in self.spec.get("struct_fields", {}):
             try:
